@@ -43,7 +43,8 @@ theorem preExec_none {T : Table} {s : State} {b : Blk} (h : preExec T s b = none
 /-- shape of `disconnectBlock`: an error changes nothing; success pops the tip. -/
 theorem disconnectBlock_cases {P : Params} {s s' : State} {b : Blk} {r : Option Err}
     (h : disconnectBlock P s b = (s', r)) :
-    s' = s ∨ ∃ tip rest s1, s.best = tip :: rest ∧ b.id = tip.id ∧ saveSeq s false b = .ok s1 ∧ r = none ∧
+    s' = s ∨ ∃ tip rest s1, s.best = tip :: rest ∧ b.id = tip.id ∧ saveSeq s false b = .ok s1 ∧
+      r = (if rest.isEmpty then some .panic else none) ∧
       s' = { s1 with h2h := upd s1.h2h b.height none,
                      last := (b.height : Int) - 1,
                      best := rest,
